@@ -22,10 +22,10 @@ from core import enc_str
 
 PROPERTY = "C04"
 
-# CODE VARIANT FLAGS — the values that match today's code in /repo
-# SORT_SPANS = 1: markup.render ends with `text.spans = sorted(spans)` (pre-finding F8);
-# SORT_SPANS = 0: repaired code, spans kept in the order their tags were opened.
-SORT_SPANS = int(os.environ.get("VERIF_C04_SORT_SPANS", "0"))  # 1 = today's code
+# CODE VARIANT FLAGS — the values that match the code in /repo as it is now
+# SORT_SPANS = 1: rich 9.10.0 as found: markup.render ends with `text.spans = sorted(spans)` (pre-finding F8);
+# SORT_SPANS = 0: repaired code (fix 623ba68, in /repo now), spans kept in the order their tags were opened.
+SORT_SPANS = int(os.environ.get("VERIF_C04_SORT_SPANS", "0"))  # 1 = rich 9.10.0 as found (before fix 623ba68)
 
 
 # ------------------------------------------------------------------------------------------------
@@ -373,8 +373,8 @@ MANIFEST = {
     "order): tags_style_exactly_partial for every markup string, tags_style_exactly_doc_partial for documents of the tag grammar, "
     "render_escape_embedded_partial, error_iff_nothing_to_close_partial (both span orders). The `_partial` theorems assume emoji=False "
     "(with emoji on, text chunks pass through _emoji_replace one by one: not proved) and, for the style theorems, the repaired span "
-    "order; old_tags_style_exactly* prove by `decide` that today's `sorted(spans)` violates the precedence at `[b][a]x` (finding F8, "
-    "pending_fixes/C04-markup-span-order.diff). Tie: ~1.4M model-vs-rich comparisons per quick run (every string <= 5 over the 12-symbol "
+    "order (what /repo contains now); old_tags_style_exactly* prove by `decide` that the `sorted(spans)` of rich 9.10.0 as found violated the "
+    "precedence at `[b][a]x` (finding F8, repaired by fix 623ba68 = pending_fixes/C04-markup-span-order.diff). Tie: ~1.4M model-vs-rich comparisons per quick run (every string <= 5 over the 12-symbol "
     "alphabet and <= 4 over 16 class-boundary symbols through escape, _parse, render, Text.from_markup with emoji on, plus random "
     "strings and 7000 tag-grammar documents), and the theorems' executable statements evaluated on rich's own output against an "
     "independent reference interpreter, and on real Text.render for the documents.",
